@@ -27,6 +27,14 @@ package main
 //      written as the literal `func(a T) R { return rewriteKey(a) }`, so that the inliner can
 //      put its body there (closures extracted into named functions come back as closures).
 //
+//  N6  scalar replacement of local struct values: a local struct variable that is only read and
+//      written field by field (an options / job struct filled by a literal and handed to an
+//      inlined helper) becomes one local variable per field.
+//  N7  a loop over a local table of struct literals whose fields are side-effect-free
+//      expressions (`rules := []struct{bad bool; msg string}{{a && b, "..."}, ...}; for _, r :=
+//      range rules { if r.bad { return r.msg } }`), the loop following the table directly, is
+//      unrolled with the fields substituted.
+//
 // Whenever a precondition is not met the construct is left as it is.
 
 import (
@@ -148,15 +156,17 @@ type constTable struct {
 }
 
 type normaliser struct {
-	pkg      *packages.Package
-	info     *types.Info
-	tables   map[*types.Var]*constTable
-	aliasDef map[*ast.Ident]bool // uses of a table that define an alias of it
-	local    map[*types.Var]bool // tables that are local variables (must stay "used" after unrolling)
-	n        int
-	baseline map[string]bool // functions of the reviewed decomposition (never rewritten away)
-	changed  map[*ast.File]bool
-	log      []string
+	pkg           *packages.Package
+	info          *types.Info
+	tables        map[*types.Var]*constTable
+	aliasDef      map[*ast.Ident]bool // uses of a table that define an alias of it
+	local         map[*types.Var]bool // tables that are local variables (must stay "used" after unrolling)
+	n             int
+	baseline      map[string]bool // functions of the reviewed decomposition (never rewritten away)
+	splice        map[ast.Stmt][]ast.Stmt
+	failedRewrite bool
+	changed       map[*ast.File]bool
+	log           []string
 }
 
 // constantElt: a constant expression, or a reference to a package-level function / nil.
@@ -688,7 +698,7 @@ func preNormalise(orig, cur *packages.Package, base map[string][]byte, rep *inli
 	}
 	changedAny := false
 	for round := 0; round < 3; round++ {
-		nz := &normaliser{pkg: cur, info: cur.TypesInfo, changed: map[*ast.File]bool{}, n: outer*10000 + round*1000, baseline: baseline}
+		nz := &normaliser{pkg: cur, info: cur.TypesInfo, changed: map[*ast.File]bool{}, n: outer*10000 + round*1000, baseline: baseline, splice: map[ast.Stmt][]ast.Stmt{}}
 		nz.findTables()
 		for _, f := range cur.Syntax {
 			nz.unrollIn(f)
@@ -698,6 +708,17 @@ func preNormalise(orig, cur *packages.Package, base map[string][]byte, rep *inli
 			nz.containsLoopsIn(f)
 			nz.omapIteratorsIn(f)
 			nz.etaExpandIn(f)
+		}
+		if len(nz.changed) == 0 {
+			// the aggregate rewrites work on fully typed trees of their own round
+			for _, f := range cur.Syntax {
+				nz.sroaIn(f)
+			}
+		}
+		if len(nz.changed) == 0 {
+			for _, f := range cur.Syntax {
+				nz.pureTablesIn(f)
+			}
 		}
 		if len(nz.changed) == 0 {
 			break
@@ -1069,6 +1090,550 @@ func (nz *normaliser) etaExpandIn(f *ast.File) {
 		c.Replace(copyNode(e).(ast.Expr))
 		nz.changed[f] = true
 		nz.log = append(nz.log, "function value "+id.Name+" written as a literal calling it")
+		return true
+	})
+}
+
+// ---- N6: scalar replacement of local struct values ----
+
+func (nz *normaliser) sroaIn(f *ast.File) {
+	qual, qok := nz.fileQualifier(f)
+	for _, d := range f.Decls {
+		fd, ok := d.(*ast.FuncDecl)
+		if !ok || fd.Body == nil {
+			continue
+		}
+		nz.sroaFunc(f, fd.Body, qual, qok)
+	}
+	// function literals of package-level variables (the cobra commands) are reached through
+	// their enclosing declarations above only when inside functions; handle top-level ones too
+	for _, d := range f.Decls {
+		if gd, ok := d.(*ast.GenDecl); ok && gd.Tok == token.VAR {
+			ast.Inspect(gd, func(n ast.Node) bool {
+				if fl, ok := n.(*ast.FuncLit); ok {
+					nz.sroaFunc(f, fl.Body, qual, qok)
+					return false
+				}
+				return true
+			})
+		}
+	}
+}
+
+func (nz *normaliser) sroaFunc(f *ast.File, body *ast.BlockStmt, qual types.Qualifier, qok *bool) {
+	type cand struct {
+		v     *types.Var
+		st    *types.Struct
+		lit   *ast.CompositeLit // initialiser, or nil
+		from  *types.Var        // whole copy of another candidate, or nil
+		decl  ast.Stmt
+		names []*ast.Ident
+	}
+	cands := map[*types.Var]*cand{}
+	// definitions
+	ast.Inspect(body, func(n ast.Node) bool {
+		var name *ast.Ident
+		var val ast.Expr
+		var st ast.Stmt
+		switch x := n.(type) {
+		case *ast.DeclStmt:
+			gd, ok := x.Decl.(*ast.GenDecl)
+			if !ok || gd.Tok != token.VAR || len(gd.Specs) != 1 {
+				return true
+			}
+			vs := gd.Specs[0].(*ast.ValueSpec)
+			if len(vs.Names) != 1 || len(vs.Values) != 1 {
+				return true
+			}
+			name, val, st = vs.Names[0], vs.Values[0], x
+		case *ast.AssignStmt:
+			if x.Tok != token.DEFINE || len(x.Lhs) != 1 || len(x.Rhs) != 1 {
+				return true
+			}
+			id, ok := x.Lhs[0].(*ast.Ident)
+			if !ok {
+				return true
+			}
+			name, val, st = id, x.Rhs[0], x
+		default:
+			return true
+		}
+		v, ok := nz.info.Defs[name].(*types.Var)
+		if !ok || name.Name == "_" {
+			return true
+		}
+		stT, ok := v.Type().Underlying().(*types.Struct)
+		if !ok || stT.NumFields() == 0 || stT.NumFields() > 40 {
+			return true
+		}
+		c := &cand{v: v, st: stT, decl: st}
+		switch e := val.(type) {
+		case *ast.CompositeLit:
+			c.lit = e
+		case *ast.Ident:
+			src, ok := nz.info.Uses[e].(*types.Var)
+			if !ok {
+				return true
+			}
+			c.from = src
+		default:
+			return true
+		}
+		cands[v] = c
+		return true
+	})
+	if len(cands) == 0 {
+		return
+	}
+	// uses: field selections, whole copies into another candidate, `_ = v`
+	for changed := true; changed; {
+		changed = false
+		var stack []ast.Node
+		ast.Inspect(body, func(n ast.Node) bool {
+			if n == nil {
+				stack = stack[:len(stack)-1]
+				return true
+			}
+			stack = append(stack, n)
+			id, ok := n.(*ast.Ident)
+			if !ok {
+				return true
+			}
+			v, ok := nz.info.Uses[id].(*types.Var)
+			if !ok || cands[v] == nil {
+				return true
+			}
+			okUse := false
+			parent := stack[len(stack)-2]
+			switch p := parent.(type) {
+			case *ast.SelectorExpr:
+				if p.X == ast.Expr(id) {
+					if sel := nz.info.Selections[p]; sel != nil && sel.Kind() == types.FieldVal && len(sel.Index()) == 1 {
+						okUse = true
+						if len(stack) >= 3 {
+							if u, isU := stack[len(stack)-3].(*ast.UnaryExpr); isU && u.Op == token.AND {
+								okUse = false
+							}
+						}
+					}
+				}
+			case *ast.ValueSpec:
+				// var y T = v, y a candidate copying v
+				if len(p.Names) == 1 && len(p.Values) == 1 && p.Values[0] == ast.Expr(id) {
+					if y, isVar := nz.info.Defs[p.Names[0]].(*types.Var); isVar && cands[y] != nil && cands[y].from == v {
+						okUse = true
+					}
+				}
+			case *ast.AssignStmt:
+				if len(p.Lhs) == 1 && len(p.Rhs) == 1 && p.Rhs[0] == ast.Expr(id) {
+					if l, isId := p.Lhs[0].(*ast.Ident); isId {
+						if l.Name == "_" && p.Tok == token.ASSIGN {
+							okUse = true
+						} else if y, isVar := nz.info.Defs[l].(*types.Var); isVar && p.Tok == token.DEFINE && cands[y] != nil && cands[y].from == v {
+							okUse = true
+						}
+					}
+				}
+			}
+			if !okUse {
+				delete(cands, v)
+				changed = true
+			}
+			return true
+		})
+		for v, c := range cands {
+			if c.from != nil && cands[c.from] == nil {
+				delete(cands, v)
+				changed = true
+			}
+		}
+	}
+	if len(cands) == 0 {
+		return
+	}
+	fname := func(v *types.Var, field string) string { return fmt.Sprintf("_sr_%s_%s", v.Name(), field) }
+	// unique suffix per variable object (shadowing)
+	ids := map[*types.Var]int{}
+	var order []*types.Var
+	for v := range cands {
+		order = append(order, v)
+	}
+	sort.Slice(order, func(i, j int) bool { return order[i].Pos() < order[j].Pos() })
+	for i, v := range order {
+		ids[v] = nz.n*100 + i
+	}
+	nz.n++
+	fname = func(v *types.Var, field string) string { return fmt.Sprintf("_sr%d_%s_%s", ids[v], v.Name(), field) }
+	failed := false
+	// rewrite
+	astutil.Apply(body, func(c *astutil.Cursor) bool {
+		switch x := c.Node().(type) {
+		case *ast.SelectorExpr:
+			if id, ok := x.X.(*ast.Ident); ok {
+				if v, ok := nz.info.Uses[id].(*types.Var); ok && cands[v] != nil {
+					c.Replace(ast.NewIdent(fname(v, x.Sel.Name)))
+					return false
+				}
+			}
+		case *ast.DeclStmt, *ast.AssignStmt:
+			var cd *cand
+			for _, cc := range cands {
+				if cc.decl == ast.Stmt(x.(ast.Stmt)) {
+					cd = cc
+				}
+			}
+			if cd == nil {
+				// `_ = v`
+				if as, ok := x.(*ast.AssignStmt); ok && as.Tok == token.ASSIGN && len(as.Lhs) == 1 && len(as.Rhs) == 1 {
+					if id, ok := as.Rhs[0].(*ast.Ident); ok {
+						if v, ok := nz.info.Uses[id].(*types.Var); ok && cands[v] != nil {
+							c.Replace(&ast.EmptyStmt{})
+							return false
+						}
+					}
+				}
+				return true
+			}
+			var list []ast.Stmt
+			given := map[string]ast.Expr{}
+			var litOrder []string
+			if cd.lit != nil {
+				for i, e := range cd.lit.Elts {
+					if kv, ok := e.(*ast.KeyValueExpr); ok {
+						k, _ := kv.Key.(*ast.Ident)
+						if k == nil {
+							failed = true
+							return false
+						}
+						given[k.Name] = kv.Value
+						litOrder = append(litOrder, k.Name)
+					} else if i < cd.st.NumFields() {
+						given[cd.st.Field(i).Name()] = e
+						litOrder = append(litOrder, cd.st.Field(i).Name())
+					}
+				}
+			}
+			mk := func(field *types.Var, val ast.Expr) ast.Stmt {
+				te, err := parser.ParseExpr(types.TypeString(field.Type(), qual))
+				if err != nil {
+					failed = true
+					te = ast.NewIdent("any")
+				}
+				n := fname(cd.v, field.Name())
+				vs := &ast.ValueSpec{Names: []*ast.Ident{ast.NewIdent(n)}, Type: te}
+				if val != nil {
+					vs.Values = []ast.Expr{val}
+				}
+				return &ast.BlockStmt{List: []ast.Stmt{&ast.DeclStmt{Decl: &ast.GenDecl{Tok: token.VAR, Specs: []ast.Spec{vs}}}}}
+			}
+			_ = mk
+			// declarations must stay in the enclosing block: emit them flat (a statement list
+			// cannot replace one statement, so wrap the later uses' scope by declaring all fields
+			// through one `var ( ... )` declaration - evaluation order is the literal's order)
+			gd := &ast.GenDecl{Tok: token.VAR, Lparen: 1, Rparen: 1}
+			seen := map[string]bool{}
+			add := func(field *types.Var, val ast.Expr) {
+				te, err := parser.ParseExpr(types.TypeString(field.Type(), qual))
+				if err != nil {
+					failed = true
+					return
+				}
+				vs := &ast.ValueSpec{Names: []*ast.Ident{ast.NewIdent(fname(cd.v, field.Name()))}, Type: te}
+				if val != nil {
+					vs.Values = []ast.Expr{val}
+				}
+				gd.Specs = append(gd.Specs, vs)
+			}
+			byName := map[string]*types.Var{}
+			for i := 0; i < cd.st.NumFields(); i++ {
+				byName[cd.st.Field(i).Name()] = cd.st.Field(i)
+			}
+			for _, fn := range litOrder {
+				if fv := byName[fn]; fv != nil && !seen[fn] {
+					seen[fn] = true
+					add(fv, given[fn])
+				}
+			}
+			for i := 0; i < cd.st.NumFields(); i++ {
+				fv := cd.st.Field(i)
+				if seen[fv.Name()] {
+					continue
+				}
+				if cd.from != nil {
+					add(fv, ast.NewIdent(fname(cd.from, fv.Name())))
+				} else {
+					add(fv, nil)
+				}
+			}
+			list = append(list, &ast.DeclStmt{Decl: gd})
+			// keep every field "used"
+			for i := 0; i < cd.st.NumFields(); i++ {
+				list = append(list, &ast.AssignStmt{Lhs: []ast.Expr{ast.NewIdent("_")}, Tok: token.ASSIGN, Rhs: []ast.Expr{ast.NewIdent(fname(cd.v, cd.st.Field(i).Name()))}})
+			}
+			// a DeclStmt followed by `_ = f` statements cannot replace one statement without a
+			// block; the block would end the variables' scope. Use the multi-statement splice below.
+			nz.splice[x.(ast.Stmt)] = list
+			return false
+		}
+		return true
+	}, nil)
+	if failed || !*qok {
+		// the tree was partly rewritten: mark the file changed, so that the re-check fails and
+		// the round is dropped with clean trees
+		nz.splice = map[ast.Stmt][]ast.Stmt{}
+		nz.failedRewrite = true
+		nz.changed[f] = true
+		return
+	}
+	// splice the field declarations in place of the struct declarations
+	ast.Inspect(body, func(n ast.Node) bool {
+		fix := func(list []ast.Stmt) []ast.Stmt {
+			var out []ast.Stmt
+			for _, st := range list {
+				if rep, ok := nz.splice[st]; ok {
+					out = append(out, rep...)
+				} else {
+					out = append(out, st)
+				}
+			}
+			return out
+		}
+		switch x := n.(type) {
+		case *ast.BlockStmt:
+			x.List = fix(x.List)
+		case *ast.CaseClause:
+			x.Body = fix(x.Body)
+		case *ast.CommClause:
+			x.Body = fix(x.Body)
+		}
+		return true
+	})
+	nz.splice = map[ast.Stmt][]ast.Stmt{}
+	nz.changed[f] = true
+	nz.log = append(nz.log, fmt.Sprintf("%d local struct value(s) replaced by their fields", len(cands)))
+}
+
+// ---- N7: loops over local tables of struct literals with pure fields ----
+
+func (nz *normaliser) pureExpr(e ast.Expr) bool {
+	pure := true
+	ast.Inspect(e, func(n ast.Node) bool {
+		switch x := n.(type) {
+		case *ast.CallExpr:
+			if id, ok := x.Fun.(*ast.Ident); ok && (id.Name == "len" || id.Name == "cap") {
+				if _, isB := nz.info.Uses[id].(*types.Builtin); isB {
+					return true
+				}
+			}
+			if tv, ok := nz.info.Types[x.Fun]; ok && tv.IsType() {
+				return true // conversion
+			}
+			pure = false
+		case *ast.FuncLit, *ast.IndexExpr, *ast.SliceExpr, *ast.StarExpr, *ast.TypeAssertExpr:
+			pure = false // may panic or hide effects
+		case *ast.UnaryExpr:
+			if x.Op == token.ARROW || x.Op == token.AND {
+				pure = false
+			}
+		case *ast.BinaryExpr:
+			if x.Op == token.QUO || x.Op == token.REM || x.Op == token.SHL || x.Op == token.SHR {
+				pure = false
+			}
+		}
+		return pure
+	})
+	return pure
+}
+
+func (nz *normaliser) pureTablesIn(f *ast.File) {
+	ast.Inspect(f, func(n ast.Node) bool {
+		blk, ok := n.(*ast.BlockStmt)
+		if !ok {
+			return true
+		}
+		for i := 0; i+1 < len(blk.List); i++ {
+			as, ok := blk.List[i].(*ast.AssignStmt)
+			if !ok || as.Tok != token.DEFINE || len(as.Lhs) != 1 || len(as.Rhs) != 1 {
+				continue
+			}
+			tid, ok := as.Lhs[0].(*ast.Ident)
+			cl, ok2 := as.Rhs[0].(*ast.CompositeLit)
+			rs, ok3 := blk.List[i+1].(*ast.RangeStmt)
+			if !ok || !ok2 || !ok3 {
+				continue
+			}
+			tv, _ := nz.info.Defs[tid].(*types.Var)
+			rid, isId := rs.X.(*ast.Ident)
+			if tv == nil || !isId || nz.info.Uses[rid] != types.Object(tv) || rs.Tok != token.DEFINE {
+				continue
+			}
+			if k, isK := rs.Key.(*ast.Ident); rs.Key != nil && (!isK || k.Name != "_") {
+				continue
+			}
+			vid, isV := rs.Value.(*ast.Ident)
+			if !isV || vid.Name == "_" {
+				continue
+			}
+			at, isArr := cl.Type.(*ast.ArrayType)
+			if !isArr || len(cl.Elts) == 0 || len(cl.Elts) > 64 {
+				continue
+			}
+			sl, isSl := tv.Type().Underlying().(*types.Slice)
+			if !isSl {
+				continue
+			}
+			st, isSt := sl.Elem().Underlying().(*types.Struct)
+			if !isSt {
+				continue
+			}
+			_ = at
+			// the table is used by this loop only
+			uses := 0
+			ast.Inspect(f, func(m ast.Node) bool {
+				if id, ok := m.(*ast.Ident); ok && nz.info.Uses[id] == types.Object(tv) {
+					uses++
+				}
+				return true
+			})
+			if uses != 1 {
+				continue
+			}
+			// elements: struct literals with pure fields
+			var elems []map[string]ast.Expr
+			okAll := true
+			mentioned := map[types.Object]bool{}
+			for _, e := range cl.Elts {
+				ecl, ok := e.(*ast.CompositeLit)
+				if !ok {
+					okAll = false
+					break
+				}
+				fm := map[string]ast.Expr{}
+				for fi, fe := range ecl.Elts {
+					var name string
+					val := fe
+					if kv, ok := fe.(*ast.KeyValueExpr); ok {
+						kid, _ := kv.Key.(*ast.Ident)
+						if kid == nil {
+							okAll = false
+							break
+						}
+						name, val = kid.Name, kv.Value
+					} else if fi < st.NumFields() {
+						name = st.Field(fi).Name()
+					}
+					if !nz.pureExpr(val) {
+						okAll = false
+					}
+					ast.Inspect(val, func(m ast.Node) bool {
+						if id, ok := m.(*ast.Ident); ok {
+							if o := nz.info.Uses[id]; o != nil {
+								mentioned[o] = true
+							}
+						}
+						return true
+					})
+					fm[name] = val
+				}
+				elems = append(elems, fm)
+			}
+			if !okAll {
+				continue
+			}
+			// the body reads the element field by field only and assigns none of the mentioned variables
+			vobj := nz.info.Defs[vid]
+			bad := false
+			var stack []ast.Node
+			ast.Inspect(rs.Body, func(m ast.Node) bool {
+				if m == nil {
+					stack = stack[:len(stack)-1]
+					return true
+				}
+				stack = append(stack, m)
+				switch x := m.(type) {
+				case *ast.Ident:
+					if nz.info.Uses[x] == vobj {
+						if se, ok := stack[len(stack)-2].(*ast.SelectorExpr); !ok || se.X != ast.Expr(x) {
+							bad = true
+						}
+					}
+				case *ast.AssignStmt:
+					for _, l := range x.Lhs {
+						if root := rootIdent(l); root != nil {
+							if o := nz.info.Uses[root]; o != nil && (mentioned[o] || o == vobj) {
+								bad = true
+							}
+						}
+					}
+				case *ast.IncDecStmt:
+					if root := rootIdent(x.X); root != nil && mentioned[nz.info.Uses[root]] {
+						bad = true
+					}
+				case *ast.UnaryExpr:
+					if x.Op == token.AND {
+						bad = true
+					}
+				case *ast.FuncLit:
+					bad = true
+				}
+				return true
+			})
+			breaks, continues, jok := loopJumps(rs.Body)
+			if bad || !jok {
+				continue
+			}
+			_ = breaks
+			_ = continues
+			nz.n++
+			pfx := fmt.Sprintf("_unr%d_", nz.n)
+			endLabel := pfx + "end"
+			usedEnd := false
+			var out []ast.Stmt
+			for k, fm := range elems {
+				bodyCopy := copyNode(rs.Body).(*ast.BlockStmt)
+				nextLabel := fmt.Sprintf("%sn%d", pfx, k)
+				usedNext := false
+				bs, cs, _ := loopJumps(bodyCopy)
+				bset, cset := map[*ast.BranchStmt]bool{}, map[*ast.BranchStmt]bool{}
+				for _, b := range bs {
+					bset[b] = true
+				}
+				for _, c := range cs {
+					cset[c] = true
+				}
+				astutil.Apply(bodyCopy, func(cc *astutil.Cursor) bool {
+					switch x := cc.Node().(type) {
+					case *ast.BranchStmt:
+						if bset[x] {
+							usedEnd = true
+							cc.Replace(&ast.BranchStmt{Tok: token.GOTO, Label: ast.NewIdent(endLabel)})
+						} else if cset[x] {
+							usedNext = true
+							cc.Replace(&ast.BranchStmt{Tok: token.GOTO, Label: ast.NewIdent(nextLabel)})
+						}
+					case *ast.SelectorExpr:
+						if xid, ok := x.X.(*ast.Ident); ok && xid.Name == vid.Name {
+							if fv, has := fm[x.Sel.Name]; has {
+								cc.Replace(&ast.ParenExpr{X: copyNode(fv).(ast.Expr)})
+								return false
+							}
+						}
+					}
+					return true
+				}, nil)
+				out = append(out, bodyCopy)
+				if usedNext {
+					out = append(out, &ast.LabeledStmt{Label: ast.NewIdent(nextLabel), Stmt: &ast.EmptyStmt{}})
+				}
+			}
+			if usedEnd {
+				out = append(out, &ast.LabeledStmt{Label: ast.NewIdent(endLabel), Stmt: &ast.EmptyStmt{}})
+			}
+			blk.List = append(append(append([]ast.Stmt{}, blk.List[:i]...), &ast.BlockStmt{List: out}), blk.List[i+2:]...)
+			nz.changed[f] = true
+			nz.log = append(nz.log, fmt.Sprintf("loop over the local table %s (%d entries) written out", tid.Name, len(elems)))
+			return true
+		}
 		return true
 	})
 }
